@@ -85,7 +85,45 @@ def run_cases(ctx, cases):
     outs = coq_eval(ctx, QASM_EVAL_IMPORTS, terms)
     codes = [None] * len(cases)
     for i, o in zip(idx, outs): codes[i] = parseN(o)
+    # the objects of the soundness theorem on the real text: parsed body = body_stmts 0 (lower_all circuit)
+    lt, li = [], []
+    for i, (c, r) in enumerate(zip(cases, results)):
+        if r.get("r") == "ok":
+            xs = xgates(c)
+            if xs is not None:
+                lt.append("check_lowering %s %s" % (cq_string(r["text"]), xs)); li.append(i)
+    louts = coq_eval(ctx, QASM_EVAL_IMPORTS + "\nFrom QI Require Import Model.Measure Model.QasmLower.", lt, tag="lower")
+    ctx.cov["lowering_checked"] = len(lt)
+    bad = [cases[i] for i, o in zip(li, louts) if parseN(o) != 7]
+    ctx.cov["lowering_equal"] = len(lt) - len(bad)
+    for c in bad[:3]:
+        ctx.broken.append("the body parsed from the exported text is not body_stmts 0 (lower_all circuit) of Model/QasmLower.v on %s" % json.dumps(brief(c))[:300])
     return results, codes
+
+OPCTOR = {"H": "OpH", "X": "OpX", "Y": "OpY", "Z": "OpZ", "S": "OpS", "T": "OpT", "Sdag": "OpSdag", "Tdag": "OpTdag", "I": "OpI",
+          "CNOT": "OpCNOT", "Toffoli": "OpToffoli", "SWAP": "OpSWAP"}
+def xgates(c):
+    """the circuit as a Gallina list of xgate (QasmLower), or None when it contains a custom unitary / custom basis"""
+    out = []
+    for g in c["gates"]:
+        if g["g"] in ("op", "param"):
+            k = g["kind"]
+            if k in OPCTOR:
+                tss = [g["ts"]] if k == "SWAP" else [[t] for t in g["ts"]]
+                for ts in tss: out.append("XOp %s None %s %s" % (OPCTOR[k], cqNs(ts), cqNs(g["cs"])))
+            elif k in ("P", "RX", "RY", "RZ"):
+                ang = bits2float(g["params"][0] if g["g"] == "op" else g["vals"][0])
+                d = rust_display(ang)
+                if d is None: return None
+                for t in g["ts"]: out.append("XOp (Op%s 0 0) (Some %s) %s %s" % (k, cq_lit(d), cqNs([t]), cqNs(g["cs"])))
+            else: return None
+        elif g["g"] == "meas":
+            if g["basis"] == "U": return None
+            out.append("XMeas %s %s" % ({"C": "BComp", "X": "BX", "Y": "BY"}[g["basis"]], cqNs(g["qs"] or list(range(c["n"])))))
+        elif g["g"] == "pauli":
+            for q, p in sorted(g["term"]["ops"]): out.append("XOp Op%s None %s []" % (p, cqNs([q])))
+        else: return None
+    return "[" + ";".join(out) + "]"
 
 def roundtrip_ok(c, r):
     """every angle of a P/RX/RY/RZ (also parametric) gate appears in the text as a literal that parses back to exactly that value"""
